@@ -367,7 +367,17 @@ func (sc *c02sCase) run() {
 			rest = rest[n:]
 		}
 	}
-	accepted, written, _, timedOut, rhung := trzsz.VerifRecvOneFile(sc.fcfg, annSize, chunks, c02sDeadline)
+	accepted, written, replies, timedOut, rhung := trzsz.VerifRecvOneFile(sc.fcfg, annSize, chunks, c02sDeadline)
+	answered := false
+	for _, m := range c02tTypeAck(c02tLex(replies, false, g.v3(), 0), g) {
+		if m.kind == "SUCCS" {
+			answered = true
+		}
+	}
+	if answered != accepted {
+		sc.violate("file-script:answer-differs-from-outcome", "the receiver answered the MD5 line with SUCC exactly when it did not accept the file (or the reverse)",
+			fmt.Sprintf("mutations=%v answered=%v accepted=%v", muts, answered, accepted))
+	}
 
 	// the decoder oracle for the model
 	dec := "!"
